@@ -485,11 +485,14 @@ open TailRec CpeProg in
 /-- The model's rewrite for every parameter the decision removes (per function, highest index first). -/
 def transformProg (prog : Prog) (states : List (Nat × List PState)) : Prog :=
   states.foldl (fun pr (gs : Nat × List PState) =>
-    (List.range gs.2.length).reverse.foldl (fun pr i =>
+    let es : List Elim := (List.range gs.2.length).reverse.filterMap fun i =>
       match gs.2[i]? with
-      | some PState.unused => dropParam gs.1 i pr
-      | some (PState.c32 n) => substParam gs.1 i i n pr
-      | _ => pr) pr) prog
+      | some PState.unused => some (Elim.unused i)
+      | some (PState.c32 n) => some (Elim.const i n)
+      | _ => none
+    match lookup pr gs.1 with
+    | some gfn => elimMany gs.1 es gfn.params pr       -- the sweep proved in `cpe_prog_mixed_sweep_preserves`
+    | none => pr) prog
 
 open TailRec CpeProg in
 def cpeprogLine (rest : String) : String :=
